@@ -3,6 +3,7 @@ package events
 import (
 	"context"
 	"fmt"
+	"math"
 	"testing"
 
 	"github.com/iotaledger/hive.go/runtime/event"
@@ -103,6 +104,8 @@ type hookRec struct {
 	max      int
 	pooled   bool
 	calls    map[int][]uint64 // trigger arg -> steps at which the hook ran
+	ends     map[int][]uint64 // trigger arg -> steps at which those calls returned
+	unhooks  int              // 1, 2: its callback unhooks the hook attached 1 / 2 places after it (once)
 	total    int
 	unhookFn func()
 	attached bool
@@ -113,6 +116,8 @@ type trigRec struct {
 	call iv
 }
 
+var hugeLimits = []uint64{math.MaxUint64, 1 << 63, 1<<63 + 1, math.MaxInt64}
+
 func hooks(s *simrt.Sim, pooled bool) {
 	evMax := 0
 	if s.Choose(4) == 3 {
@@ -121,6 +126,10 @@ func hooks(s *simrt.Sim, pooled bool) {
 	var opts []event.Option
 	if evMax > 0 {
 		opts = append(opts, event.WithMaxTriggerCount(uint64(evMax)))
+	} else if s.Choose(8) == 7 {
+		// a limit nobody reaches: min(n, triggers) = triggers
+		opts = append(opts, event.WithMaxTriggerCount(hugeLimits[s.Choose(len(hugeLimits))]))
+		s.Probe("event-max-trigger-count-above-MaxInt64")
 	}
 	arity := 1 + s.Choose(3)
 	ev := newEvt(s, arity, opts...)
@@ -132,11 +141,17 @@ func hooks(s *simrt.Sim, pooled bool) {
 	var trigs []*trigRec
 	s.Logf("config eventMax=%d pooled=%v arity=%d", evMax, pooled, arity)
 	mkHook := func(name string, max int, usePool bool) *hookRec {
-		h := &hookRec{name: name, max: max, pooled: usePool, calls: map[int][]uint64{}}
+		h := &hookRec{name: name, max: max, pooled: usePool, calls: map[int][]uint64{}, ends: map[int][]uint64{}}
+		if s.Choose(4) == 3 {
+			h.unhooks = 1 + s.Choose(2)
+		}
 		hs = append(hs, h)
 		var o []event.Option
 		if max > 0 {
 			o = append(o, event.WithMaxTriggerCount(uint64(max)))
+		} else if s.Choose(8) == 7 {
+			o = append(o, event.WithMaxTriggerCount(hugeLimits[s.Choose(len(hugeLimits))]))
+			s.Probe("hook-max-trigger-count-above-MaxInt64")
 		}
 		if usePool {
 			o = append(o, event.WithWorkerPool(pool))
@@ -147,6 +162,29 @@ func hooks(s *simrt.Sim, pooled bool) {
 			h.total++
 			s.Logf("hook %s called with %d", name, arg)
 			simrt.Yield()
+			if h.unhooks > 0 {
+				// the callback unhooks a hook that comes after it: that hook is unhooked before the running Trigger gets to it
+				skip := h.unhooks - 1
+				h.unhooks = 0
+				after := false
+				for _, v := range hs {
+					if v == h {
+						after = true
+					} else if after && v.attached && v.unhook.inv == 0 {
+						if skip > 0 {
+							skip--
+							continue
+						}
+						s.Probe("hook-unhooked-by-the-callback-of-an-earlier-hook")
+						v.unhook.inv = s.Tick()
+						v.unhookFn()
+						v.unhook.ret = s.Tick()
+						s.Logf("Unhook %s (from the callback of %s)", v.name, name)
+						break
+					}
+				}
+			}
+			h.ends[arg] = append(h.ends[arg], s.Tick())
 		}, o...)
 		h.attach.ret = s.Tick()
 		h.attached = true
@@ -254,6 +292,26 @@ func hooks(s *simrt.Sim, pooled bool) {
 			}
 			if h.unhook.before(t.call) && n > 0 {
 				s.Fail("unhooked", "called-after-unhook", "hook %s called for Trigger(%d) invoked at step %d although Unhook had returned at step %d", h.name, t.arg, t.call.inv, h.unhook.ret)
+			}
+			if n == 1 && !h.pooled && h.unhook.ret != 0 {
+				// the hook ran although its Unhook had returned before the callback that ran before it in this Trigger returned
+				prev := t.call.inv
+				for _, o := range hs {
+					if o.pooled || o == h {
+						continue
+					}
+					for _, e := range o.ends[t.arg] {
+						if e < h.calls[t.arg][0] && e > prev {
+							prev = e
+						}
+					}
+				}
+				if h.unhook.ret < prev {
+					// not judged: C15 says which hooks a Trigger has to invoke; a hook whose Unhook overlaps the Trigger call
+					// may go either way (the unchanged tree gets here too: a Trigger standing on a hook that was unhooked
+					// meanwhile follows that hook's old successor pointer, unhooked or not)
+					s.Probe("hook-ran-although-unhooked-before-the-previous-callback-of-the-same-trigger-returned")
+				}
 			}
 			if !firedT && n > 0 && evMax > 0 {
 				s.Fail("max-trigger-count", "event-exceeded", "hook %s ran for Trigger(%d) which exceeded the event's max trigger count", h.name, t.arg)
@@ -589,6 +647,15 @@ func notifier(s *simrt.Sim) {
 		specs := make([]spec, k)
 		for i := range specs {
 			specs[i] = spec{kind: s.Weighted(3, 3, 2, 2), val: 1 + s.Choose(2), target: s.Choose(4)}
+		}
+		if a == 0 && s.Choose(4) == 3 {
+			// two listeners of one value; the first one waits, is deregistered while its Wait is under way, and only then
+			// the value is notified (the second listener keeps the value's registration alive)
+			s.Probe("scripted:wait-deregister-notify")
+			specs = []spec{{0, 1, 0}, {0, 1, 0}, {3, 1, 0}, {2, 1, 0}, {1, 1, 0}}
+			if s.Choose(2) == 1 {
+				specs = append(specs, spec{3, 1, 1})
+			}
 		}
 		s.Go(fmt.Sprintf("actor%d", a), func() {
 			var mine []*lis
